@@ -85,7 +85,8 @@ func (muxer *Muxer) Close() error {
 	}
 
 	muxer.closed = true
-	muxer.recvQueue.Signal()
+	// 通过队列锁唤醒：避免处理协程在检查 closed 之后、进入等待之前丢失信号
+	muxer.recvQueue.Push(nil)
 	return nil
 }
 
